@@ -15,7 +15,7 @@ class _VS:
         self.inner = {"given": []}
 
 
-def draw(tier, salt, n_quick=64, n_thorough=1600, n_values=3):
+def draw(tier, salt, n_quick=64, n_thorough=800, n_values=3):
     rnd = random.Random(seed() * 7919 + salt)
     n = n_quick if tier == "quick" else n_thorough
     envs, items, owner = [], [], []
